@@ -354,10 +354,18 @@ impl Runner {
                             assets[1] = assets[0].clone();
                         }
                         4 => {
-                            // a foreign asset in place of one pair asset
+                            // a foreign asset in place of one pair asset; half of the time
+                            // the coin of the replaced native asset is not attached either
                             let all = self.all_assets();
                             let f = self.rng.pick(&all).clone();
-                            assets[1].asset = f;
+                            let slot = self.rng.pick_idx(2);
+                            if self.rng.chance(50, 100) {
+                                if let AssetRef::Native(d) = &assets[slot].asset {
+                                    let d = d.clone();
+                                    funds.retain(|x| x.denom != d);
+                                }
+                            }
+                            assets[slot].asset = f;
                         }
                         _ => {
                             // extra unrelated coin
@@ -740,6 +748,13 @@ impl Runner {
             roles.push(AddrRef::Token(t));
         }
         roles.push(AddrRef::Actor(m.owner.clone()));
+        // look-alike addresses of the privileged callers
+        for a in [m.owner.clone(), m.factory.clone(), m.router.clone()] {
+            roles.push(AddrRef::Raw(format!("{}0", a)));
+            if a.len() > 3 {
+                roles.push(AddrRef::Raw(a[..a.len() - 1].to_string()));
+            }
+        }
         for _ in 0..6 {
             let r = self.rng.pick(&roles).clone();
             let addr = m.addr(&r)?;
